@@ -899,6 +899,155 @@ func h1NodeCalls() error {
 	return nil
 }
 
+// program order (C03): a call function queues its requests itself, in node order, before it waits,
+// returns or starts its collector. Node 2's send queue is full and nobody drains it: the call
+// function must be stuck handing over that request, whatever node 1 answers.
+func h1ProgramOrder(kind string) error {
+	nt := h1NewNet(2)
+	defer nt.cancel()
+	nt.chans[1].sendQ = make(chan request) // unbuffered, no reader
+	ctx, cancel := context.WithCancel(context.Background())
+	defer cancel()
+	req := &mock.Request{Val: "order"}
+	qfCalls := 0
+	returned := make(chan struct{})
+	go func() {
+		switch kind {
+		case "QuorumCall":
+			nt.cfg.QuorumCall(ctx, QuorumCallData{Message: req, Method: h1Method, QuorumFunction: func(_ protoreflect.ProtoMessage, r map[uint32]protoreflect.ProtoMessage) (protoreflect.ProtoMessage, bool) {
+				qfCalls++
+				return &mock.Response{}, true
+			}})
+		case "AsyncCall":
+			nt.cfg.AsyncCall(ctx, QuorumCallData{Message: req, Method: h1Method, QuorumFunction: func(_ protoreflect.ProtoMessage, r map[uint32]protoreflect.ProtoMessage) (protoreflect.ProtoMessage, bool) {
+				qfCalls++
+				return &mock.Response{}, true
+			}})
+		case "CorrectableCall":
+			nt.cfg.CorrectableCall(ctx, CorrectableCallData{Message: req, Method: h1Method, QuorumFunction: func(_ protoreflect.ProtoMessage, r map[uint32]protoreflect.ProtoMessage) (protoreflect.ProtoMessage, int, bool) {
+				qfCalls++
+				return &mock.Response{}, 1, true
+			}})
+		case "Multicast":
+			nt.cfg.Multicast(ctx, QuorumCallData{Message: req, Method: h1Method}, WithNoSendWaiting())
+		}
+		close(returned)
+	}()
+	deadline := time.Now().Add(3 * time.Second)
+	for len(nt.chans[0].sendQ) == 0 && time.Now().Before(deadline) {
+		time.Sleep(50 * time.Microsecond)
+	}
+	r, ok := nt.take(0)
+	if !ok {
+		return fmt.Errorf("C03: no request was queued for the first node")
+	}
+	id := r.msg.Metadata.MessageID
+	if kind != "Multicast" {
+		// node 1 answers at once with what would be a quorum
+		if err := nt.route(0, id, response{nid: nt.cfg[0].id, msg: &mock.Response{Val: "fast"}}); err != nil {
+			return err
+		}
+	}
+	time.Sleep(2 * time.Millisecond)
+	select {
+	case <-returned:
+		return fmt.Errorf("C03: %s returned although its request for node %d had not been handed to that node's send queue: a later call from the same goroutine could overtake it", kind, nt.cfg[1].id)
+	default:
+	}
+	if qfCalls != 0 && kind == "QuorumCall" {
+		return fmt.Errorf("C03: QuorumCall is processing replies although its request for node %d has not been queued yet", nt.cfg[1].id)
+	}
+	// let the hand-over happen
+	select {
+	case r2 := <-nt.chans[1].sendQ:
+		if r2.msg == nil || r2.msg.Metadata.MessageID != id {
+			return fmt.Errorf("C03/C05: the second node was handed a request with another message id")
+		}
+	case <-time.After(3 * time.Second):
+		return fmt.Errorf("C03: the request for node %d was never handed over", nt.cfg[1].id)
+	}
+	select {
+	case <-returned:
+	case <-time.After(3 * time.Second):
+		return fmt.Errorf("C02: %s did not return after its requests were handed over", kind)
+	}
+	return nil
+}
+
+// streaming correctable call (C09.e/C18): updates of a node arrive repeatedly and raise the level;
+// when the call has completed no router of it is left on ANY node of the configuration, and late
+// updates are dropped without blocking the node.
+func h1CorrectableStream(n, repliers int) error {
+	nt := h1NewNet(n)
+	defer nt.cancel()
+	ctx, cancel := context.WithCancel(context.Background())
+	defer cancel()
+	req := &mock.Request{Val: "stream"}
+	updates := 0
+	corr := nt.cfg.CorrectableCall(ctx, CorrectableCallData{Message: req, Method: h1Method, ServerStream: true,
+		QuorumFunction: func(_ protoreflect.ProtoMessage, r map[uint32]protoreflect.ProtoMessage) (protoreflect.ProtoMessage, int, bool) {
+			updates++
+			return &mock.Response{Val: fmt.Sprint("level-", updates)}, updates, updates >= 2*repliers
+		}})
+	var id uint64
+	for i := 0; i < n; i++ {
+		r, ok := nt.take(i)
+		if !ok {
+			return fmt.Errorf("C03/C06: no request was queued for node %d", nt.cfg[i].id)
+		}
+		id = r.msg.Metadata.MessageID
+	}
+	// two updates from each of the first `repliers` nodes; the last one completes the call
+	for round := 0; round < 2; round++ {
+		for i := 0; i < repliers; i++ {
+			if err := nt.route(i, id, response{nid: nt.cfg[i].id, msg: &mock.Response{Val: fmt.Sprint("update-", round, "-", i)}}); err != nil {
+				return fmt.Errorf("C09: %v", err)
+			}
+			want := round*repliers + i + 1
+			deadline := time.Now().Add(3 * time.Second)
+			for {
+				_, lvl, _ := corr.Get()
+				if lvl == want || time.Now().After(deadline) {
+					break
+				}
+				time.Sleep(50 * time.Microsecond)
+			}
+			if _, lvl, _ := corr.Get(); lvl != want {
+				return fmt.Errorf("C11: after update %d of the stream the published level is %d, want %d", want, lvl, want)
+			}
+		}
+	}
+	select {
+	case <-corr.Done():
+	case <-time.After(3 * time.Second):
+		return fmt.Errorf("C11: the streaming call did not complete when its quorum function reported done")
+	}
+	deadline := time.Now().Add(3 * time.Second)
+	left := func() (ids []uint32) {
+		for i := 0; i < n; i++ {
+			if _, ok := nt.replyChanOf(i, id); ok {
+				ids = append(ids, nt.cfg[i].id)
+			}
+		}
+		return
+	}
+	for len(left()) != 0 && time.Now().Before(deadline) {
+		time.Sleep(100 * time.Microsecond)
+	}
+	if l := left(); len(l) != 0 {
+		return fmt.Errorf("C09/C18: the streaming call has completed but its routers are still registered on nodes %v (nodes that had not replied keep a router nobody reads from: their late updates will fill it and block the node's receiver)", l)
+	}
+	// late updates from every node are dropped without blocking
+	for k := 0; k < n+2; k++ {
+		for i := 0; i < n; i++ {
+			if err := nt.route(i, id, response{nid: nt.cfg[i].id, msg: &mock.Response{Val: "late"}}); err != nil {
+				return fmt.Errorf("C09: a late stream update after completion: %v", err)
+			}
+		}
+	}
+	return nil
+}
+
 func TestGvcReplay(t *testing.T) {
 	want := os.Getenv("GVC_H1")
 	run := func(name string) bool { return want == "" || strings.Contains(","+want+",", ","+name+",") }
@@ -937,6 +1086,24 @@ func TestGvcReplay(t *testing.T) {
 				}
 				if err := h1Multicast(s, true); err != nil {
 					t.Fatalf("GVC-REPLAY: Multicast with WithNoSendWaiting violates its specification.\n  scenario: %v\n  %v", s, err)
+				}
+			}
+		}
+	}
+	for _, kind := range []string{"QuorumCall", "AsyncCall", "CorrectableCall", "Multicast"} {
+		if run(kind) {
+			count++
+			if err := h1ProgramOrder(kind); err != nil {
+				t.Fatalf("GVC-REPLAY: %s violates its specification.\n  scenario: two nodes; the second node's send queue is full and nobody drains it; the first node answers at once\n  %v", kind, err)
+			}
+		}
+	}
+	if run("CorrectableCall") {
+		for n := 1; n <= 3; n++ {
+			for k := 1; k <= n; k++ {
+				count++
+				if err := h1CorrectableStream(n, k); err != nil {
+					t.Fatalf("GVC-REPLAY: CorrectableCall (server stream) violates its specification.\n  scenario: %d nodes, the first %d stream two updates each, the quorum function completes the call on the last one\n  %v", n, k, err)
 				}
 			}
 		}
